@@ -21,13 +21,17 @@ InRange(o) ==
   /\ o.r[rSP] \in 0..65535 /\ o.r[rPC] \in 0..65535 /\ o.r[rMEMPTR] \in 0..65535
   /\ o.r[rIFF] \in 0..1 /\ o.r[rIM] \in 0..2 /\ o.r[rHALT] \in 0..1
 CellsInRange(o) == \A i \in 1..Len(o.wr) : o.wr[i][2] \in 0..255
-RomImmutable(o) == \A i \in 1..Len(o.wr) : o.wr[i][1] > 16383
+\* 128K cases (harness/drivers/simdrv.py Impl128): pages that are not mapped in are reported at addresses >= 65536
+\* (the other ROM first, then the hidden RAM banks); no instruction may touch them
+RomImmutable(o) == \A i \in 1..Len(o.wr) : o.wr[i][1] > 16383 /\ ~(o.wr[i][1] >= 65536 /\ o.wr[i][1] < 98304)
+OnlyMappedPages(o) == \A i \in 1..Len(o.wr) : o.wr[i][1] < 65536
 
 Invariants(c, o) ==
   IF o.exc # "" THEN "exception"
   ELSE IF ~InRange(o) THEN "range"
   ELSE IF ~CellsInRange(o) THEN "cell-range"
   ELSE IF ~RomImmutable(o) THEN "rom-write"
+  ELSE IF ~OnlyMappedPages(o) THEN "hidden-page-write"
   ELSE IF o.r[rT] < c.r[rT] THEN "t-decreased"
   ELSE "ok"
 
